@@ -51,9 +51,27 @@ _wb("C19", "property-based testing (rapid): four-process scenario (record / read
 _wb("C20", "stateful model-based testing (rapid): C03-style histories with every outcome class, snaps.Skip* and Clean per process; plus 2-8 real goroutines; oracle: one outcome signal per call == model class, summary totals == tallies, obsolete lists == model stale set == removed items",
     "Generated histories (sequential interleavings and real goroutines) followed by Clean in every mode; includes a file-system fault (directory that cannot be created). Sampled.")
 
+BB_NOTE = ("Trusted base: the Go toolchain and its `testing` runner (which decides what runs), pgregory.net/rapid v1.3.0, the harness' own table/formula/"
+           "predicates. A data-driven test program using only the public API is compiled against /repo (`replace`), and every case is one or more real "
+           "processes with an explicit minimal environment. No source file of /repo is modified. Exploration never shows absence.")
+
+
+def _bb(pid, technique, level_text):
+    TEXT[pid] = dict(engine="bb", technique=technique, level_text=level_text, design_ref="§6 " + pid + ", §5.1", level_note=BB_NOTE)
+
+
+_bb("C05", "exhaustive enumeration of the 1440-cell mode table x generated content, each cell executed as real processes (real CI/UPDATE_SNAPS environment, real TestMain + Clean); oracle = the statement's table as a pure function over (call outcome, directory delta)",
+    "Every combination of CI x Update option x UPDATE_SNAPS class x sort x entry point x entry state x obsolete items is executed (quick: once; thorough: three content seeds). Exhaustive over the table, sampled over values.")
+_bb("C08", "property-based testing (rapid) over generated test programs, skip sets and -run patterns, executed by the real test runner which reports which tests started; oracle = items of tests that did not run survive and are unlisted; known findings K2-K5 exempted by predicate and probed by minimal programs",
+    "Generated-program search (prefix/substring-related names, nested subtests, shared/custom/standalone files, skips before/after calls, 25 -run shapes, report/clean x sort, stale prefix-siblings). Sampled; four root causes are recorded as known findings and still reported as KNOWN-FINDING lines.")
+_bb("C11", "property-based testing (rapid) over option sets, call shapes, packages and subtest names, each case executed three times (normal, foreign cwd, -trimpath); oracle = exact set of created files and entry ids equals the statement's path formula",
+    "Generated-input search over Dir/Filename/Ext/API x call shape (0-100 extra frames, non-test files, other package) x package depth x subtest names with '%', '/', spaces. Sampled; -trimpath only for cwd = package dir.")
+
 NOT_APPLICABLE = {}
 
 ENGINES = [
+    dict(name="bb", path="/verif/bb", serves_properties=["C05", "C08", "C11"], kind_free_text="black-box rapid properties driving a compiled, data-driven test program (real testing runner, TestMain, environment) as sub-processes"),
+    dict(name="race", path="/verif/wb", serves_properties=["C06", "C12"], kind_free_text="the white-box binary built with -race; generated goroutine mixes"),
     dict(name="wb", path="/verif/wb", serves_properties=["C01","C02","C03","C04","C07","C09","C10","C12","C13","C14","C15","C16","C17","C18","C19","C20"], kind_free_text="white-box rapid properties compiled into package snaps via go test -overlay"),
 ]
 
